@@ -81,7 +81,9 @@ def stepCase (st : St) (v : Verdict) (i : Nat) (opText obs : String) : St × Ver
         | .error e => bad e
         | .ok r =>
           let (m', ret) := m.append r
-          let twins := hasTwins (r :: m.given ++ m.enforced)
+          -- a rule that is held under another id (also: that the reference holds under the id of an 'unchanged' reload which the
+          -- manager rightly did not perform) makes the return value of this append a matter of which id survived: not judged
+          let twins := hasTwins (r :: m.given ++ m.enforced ++ rf.rules)
           let v := if twins then v else v.expect i opText ret.toStr obs
           -- Spec on the return value: an already active rule is reported as not added; a new valid rule as added
           let v := if !twins && rf.rules.contains r && obs != "ret=false" then v.setViol s!"step={i} appending an already active rule returned {obs}"
